@@ -22,7 +22,11 @@ def handleCore (case obs : List String) : String × String :=
               ("bytes-are-spec-framing-of-messages", eqFrames ds expected),
               ("no-empty-chunk", ds.all (fun d => !d.isEmpty)),
               ("chunks-are-whole-frames", sp.all (fun d => d.2.2.isEmpty)),
-              ("batching-contract", batchingOkSplit c sp)])
+              ("batching-contract", batchingOkSplit c sp),
+              -- what hyper consults between polls (audit aC01): a true `is_end_stream()` with frames still
+              -- to come, or a `size_hint()` the remaining bytes do not respect, cuts the body short on the wire
+              ("is-end-stream-only-when-nothing-more-comes", endStreamOk c.cfg.server obs),
+              ("size-hint-is-sound", sizeHintOk obs)])
   | some (.dec c) =>
     let (frs, left) := Spec.Framing.split (grpcData c)
     -- each frame's payload (decompressed by the reference decompressor) read by the case's message
